@@ -46,6 +46,12 @@ def decode(c):
     except Exception: return "raised"
 
 
+def duration(c):
+    with time_machine.travel(float(c["now"]), tick=False):
+        try: return "ok " + tools.calc_duration(c["start"], c["end"])
+        except Exception: return "raised"
+
+
 def next_run(c):
     with time_machine.travel(float(c["now"]), tick=False):
         try: txt = tools.pretty_next_run(c["start"], {DAYS[i] for i in c["days"]})
@@ -71,7 +77,7 @@ def create_readback(c):
             "facts_now": local_facts(c["now"])}
 
 
-JOBS = {"schedules": schedules, "clock": clock, "decode": decode, "next_run": next_run, "create_readback": create_readback,
+JOBS = {"duration": duration, "schedules": schedules, "clock": clock, "decode": decode, "next_run": next_run, "create_readback": create_readback,
         "facts": lambda c: local_facts(c["t"]),
         "schedules_nodisplay": lambda c: schedules(c, False)}
 job = json.load(sys.stdin)
